@@ -83,6 +83,9 @@ def _run_inline(case):
 MODES = {"inline": _run_inline}
 
 
+_STRUCTURAL = ("task-killed", "no-quiescence", "scheduler-died", "raising-task-kills-scheduler", "subtask-exception-not-delivered")
+
+
 def run_case(case):
   setup()
   out = Outcome()
@@ -96,11 +99,13 @@ def run_case(case):
     for i, e in enumerate(log):
       sys.stderr.write("%4d %r\n" % (i, e))
   fails = list(_SM.check(case, log))
-  if _SM.raisers(log):
+  rs = _SM.raisers(log)
+  if rs:
     out.label("raise-vs-end-twin-run")
-    tlog = runner(_SM.twin(case))
-    tf = _SM.check(_SM.twin(case), tlog)
-    if not any(f[0] in ("task-killed", "no-quiescence", "scheduler-died", "raising-task-kills-scheduler") for f in fails + tf):
+    tcase = _SM.twin(case, rs)
+    tlog = runner(tcase)
+    tf = _SM.check(tcase, tlog)
+    if not any(f[0] in _STRUCTURAL for f in fails + tf):
       fails += _SM.compare(case, log, tlog)
   for clause, msg, disc in fails:
     out.fail(clause, msg, **disc)
